@@ -69,7 +69,7 @@ def draw_fs(rng):
 def cases(c):
     rng = c.rng('cases')
     out = []
-    n = 10 if c.tier == 'quick' else 400
+    n = 120 if c.tier == 'quick' else 800
     for cls in E.CLASSES:
         for j in range(n):
             N = int(rng.integers(16, 72))
@@ -79,7 +79,7 @@ def cases(c):
             out.append({'form': 'class', 'rel': 'scale' if j % 2 == 0 else 'sampling', 'cls': cls, 'p': params, 'N': N,
                         'NFFT': NFFT, 'cplx': int(rng.integers(0, 2)), 'kind': gen.pick(rng, ['noise', 'tones', 'ar']),
                         'fs': draw_fs(rng), 'fs2': draw_fs(rng), 'j': j})
-    for j in range(150 if c.tier == 'quick' else 5000):
+    for j in range(1500 if c.tier == 'quick' else 8000):
         la, lb = int(rng.integers(0, 9)), int(rng.integers(0, 9))
         if la == 0 and lb == 0:
             la = 1
